@@ -143,10 +143,11 @@ func c17AnalyseSliceEncoder(c *kit.Ctx, enc *c17Encoder) *c17EncModel {
 	f := enc.f
 	info := f.Info()
 	em := &c17EncModel{sumAfter: -1, subjField: -1, origin: "local", resetFirst: true}
-	isBuf := func(e ast.Expr) bool {
+	isObj := func(e ast.Expr, o types.Object) bool {
 		id, ok := ast.Unparen(e).(*ast.Ident)
-		return ok && kit.ObjOf(info, id) == enc.buf
+		return ok && o != nil && kit.ObjOf(info, id) == o
 	}
+	isBuf := func(e ast.Expr) bool { return isObj(e, enc.buf) }
 	mentions := func(n ast.Node, o types.Object) bool {
 		hit := false
 		ast.Inspect(n, func(x ast.Node) bool {
@@ -206,18 +207,128 @@ func c17AnalyseSliceEncoder(c *kit.Ctx, enc *c17Encoder) *c17EncModel {
 		}
 		return nil
 	}
-	type region struct {
-		lo, hi int64
-		role   string
-		call   *ast.CallExpr
-	}
-	var head []region
-	headLen := int64(-1)
-	sumSeen := false
-	sumAppended := 0
 	problem := func(format string, a ...any) {
 		em.problems = append(em.problems, fmt.Sprintf(format, a...))
 	}
+	sumPos := token.NoPos
+	// tiles: the segments that fill the fixed-size byte object o (the zeroed
+	// head of the packet, a [N]byte array, a make([]byte, N) local) by
+	// top-level `o[k] = x` and `copy(o[a:b], src)` statements.
+	tiles := func(o types.Object, length int64, what string) []c17Seg {
+		type region struct {
+			lo, hi int64
+			role   string
+			call   *ast.CallExpr
+		}
+		var rs []region
+		for _, st := range f.Body.List {
+			switch y := st.(type) {
+			case *ast.AssignStmt:
+				if len(y.Lhs) != 1 || len(y.Rhs) != 1 || y.Tok != token.ASSIGN {
+					continue
+				}
+				ix, ok := ast.Unparen(y.Lhs[0]).(*ast.IndexExpr)
+				if !ok || !isObj(ix.X, o) {
+					continue
+				}
+				k, okk := constOf(ix.Index)
+				if !okk {
+					problem("store into %s at non-constant offset %s", what, f.Str(ix.Index))
+					continue
+				}
+				r := region{lo: k, hi: k + 1}
+				if isOneOf(y.Rhs[0], byteParams) != nil {
+					r.role = "seq"
+				}
+				rs = append(rs, r)
+			case *ast.ExprStmt:
+				call, ok := ast.Unparen(y.X).(*ast.CallExpr)
+				if !ok || len(call.Args) != 2 {
+					continue
+				}
+				if b, isB := kit.Callee(info, call).(*types.Builtin); !isB || b.Name() != "copy" {
+					continue
+				}
+				dst := ast.Unparen(call.Args[0])
+				lo, hi := int64(0), length
+				ok1, ok2 := true, true
+				if se, isSl := dst.(*ast.SliceExpr); isSl && isObj(se.X, o) {
+					if se.Low != nil {
+						lo, ok1 = constOf(se.Low)
+					}
+					if se.High != nil {
+						hi, ok2 = constOf(se.High)
+					}
+				} else if !isObj(dst, o) {
+					continue
+				}
+				if !ok1 || !ok2 || lo > hi {
+					problem("copy destination %s is not a constant window of %s", f.Str(dst), what)
+					continue
+				}
+				r := region{lo: lo, hi: hi, call: call}
+				for _, sp := range strParams {
+					if mentions(call.Args[1], sp) {
+						r.role = "subject"
+						em.subjField, em.subjParam = hi-lo, sp
+					}
+				}
+				rs = append(rs, r)
+			case *ast.IfStmt, *ast.ForStmt, *ast.RangeStmt, *ast.SwitchStmt, *ast.TypeSwitchStmt, *ast.SelectStmt, *ast.BlockStmt:
+				if o != enc.buf && mentions(st, o) {
+					problem("%s is touched inside %T, which is conditional or repeated", what, st)
+				}
+			}
+		}
+		sort.Slice(rs, func(i, j int) bool { return rs[i].lo < rs[j].lo })
+		var out []c17Seg
+		pos := int64(0)
+		for _, r := range rs {
+			if r.lo != pos {
+				problem("bytes [%d:%d) of %s are never written (they stay zero) or are written twice", pos, r.lo, what)
+			}
+			out = append(out, c17Seg{role: r.role, size: r.hi - r.lo, call: r.call})
+			pos = r.hi
+		}
+		if pos != length {
+			problem("%s has %d bytes but the stores cover %d", what, length, pos)
+		}
+		return out
+	}
+	// fixedObject: e is a fixed-size byte object prepared before being appended:
+	// `arr[:]` of a local [N]byte, or a local made with a constant length
+	fixedObject := func(e ast.Expr) (types.Object, int64, bool) {
+		e = ast.Unparen(e)
+		if se, ok := e.(*ast.SliceExpr); ok && se.Low == nil && se.High == nil && se.Max == nil {
+			e = ast.Unparen(se.X)
+		}
+		id, ok := e.(*ast.Ident)
+		if !ok {
+			return nil, 0, false
+		}
+		o := kit.ObjOf(info, id)
+		if o == nil {
+			return nil, 0, false
+		}
+		if arr, ok := o.Type().Underlying().(*types.Array); ok {
+			if b, ok := arr.Elem().Underlying().(*types.Basic); ok && b.Kind() == types.Uint8 {
+				return o, arr.Len(), true
+			}
+		}
+		if def := c12SingleDef(f, o); def != nil {
+			if dc, ok := ast.Unparen(def).(*ast.CallExpr); ok && len(dc.Args) == 2 {
+				if b, ok := kit.Callee(info, dc).(*types.Builtin); ok && b.Name() == "make" {
+					if n, ok := constOf(dc.Args[1]); ok {
+						return o, n, true
+					}
+				}
+			}
+		}
+		return nil, 0, false
+	}
+	headLen := int64(-1)
+	sumSeen := false
+	sumAppended := 0
 	for _, st := range f.Body.List {
 		if !mentions(st, enc.buf) {
 			continue
@@ -245,53 +356,41 @@ func c17AnalyseSliceEncoder(c *kit.Ctx, enc *c17Encoder) *c17EncModel {
 					continue
 				}
 				headLen = n
-			case call == enc.sum || (call != nil && mentions(call, enc.buf) && kit.Callee(info, call) == enc.sumFn):
+			case call == enc.sum:
 				if sumSeen {
 					problem("the checksum is taken twice")
 				}
-				sumSeen = true
-				sumAppended = len(em.segs) // appended segments that precede the checksum
+				sumSeen, sumAppended, sumPos = true, len(em.segs), call.Pos()
 			case isBuf(lhs) && call != nil && len(call.Args) >= 2 && isBuf(call.Args[0]):
 				// growth
 				q := kit.QualName(kit.Callee(info, call))
 				if b, ok := kit.Callee(info, call).(*types.Builtin); ok && b.Name() == "append" {
-					seg := c17Seg{size: -1, call: call}
 					switch {
 					case call.Ellipsis.IsValid() && len(call.Args) == 2:
 						if mt := c17MarshalArg(f, call.Args[1], 0); mt != nil {
-							seg.role = "payload"
 							em.marshalArg = mt
-						} else if o := kit.ObjOf(info, call.Args[1]); o != nil {
-							// a fixed field prepared in its own slice: sub := make([]byte, N); copy(sub, subject)
-							if def := c12SingleDef(f, o); def != nil {
-								if dc, ok := ast.Unparen(def).(*ast.CallExpr); ok && len(dc.Args) == 2 {
-									if b, ok := kit.Callee(info, dc).(*types.Builtin); ok && b.Name() == "make" {
-										if n, ok := constOf(dc.Args[1]); ok {
-											seg.size = n
-											for _, cp := range f.AllCalls(false) {
-												if b, ok := kit.Callee(info, cp).(*types.Builtin); ok && b.Name() == "copy" && len(cp.Args) == 2 && kit.ObjOf(info, cp.Args[0]) == o && cp.End() < call.Pos() {
-													for _, sp := range strParams {
-														if mentions(cp.Args[1], sp) {
-															seg.role = "subject"
-															em.subjField, em.subjParam = n, sp
-														}
-													}
-												}
-											}
-										}
-									}
-								}
+							em.segs = append(em.segs, c17Seg{role: "payload", size: -1, call: call})
+						} else if o, n, ok := fixedObject(call.Args[1]); ok {
+							em.segs = append(em.segs, tiles(o, n, "the prepared field "+o.Name())...)
+						} else if dc, isCall := c17DefCall(f, call.Args[1]); isCall {
+							if n, g, gp, ok := c17SubjectFieldHelper(f, dc, strParams); ok {
+								em.subjField, em.subjParam, em.guardFn = n, gp, g
+								em.segs = append(em.segs, c17Seg{role: "subject", size: n, call: call})
+							} else {
+								em.segs = append(em.segs, c17Seg{size: -1, call: call})
 							}
+						} else {
+							em.segs = append(em.segs, c17Seg{size: -1, call: call})
 						}
 					case !call.Ellipsis.IsValid() && len(call.Args) == 2:
-						seg.size = 1
+						seg := c17Seg{size: 1, call: call}
 						if isOneOf(call.Args[1], byteParams) != nil {
 							seg.role = "seq"
 						}
+						em.segs = append(em.segs, seg)
 					default:
 						problem("append %s is not understood", f.Str(call))
 					}
-					em.segs = append(em.segs, seg)
 					continue
 				}
 				if fn, ok := kit.Callee(info, call).(*types.Func); ok && c17InBinaryPkg(fn) && (fn.Name() == "AppendUint16" || fn.Name() == "AppendUint32") && len(call.Args) == 2 {
@@ -309,63 +408,35 @@ func c17AnalyseSliceEncoder(c *kit.Ctx, enc *c17Encoder) *c17EncModel {
 							seg.role = "crc"
 						}
 					} else if ast.Unparen(call.Args[1]) == ast.Expr(enc.sum) {
+						// the checksum is taken in the argument: over everything appended so far
 						seg.role = "crc"
+						if sumSeen {
+							problem("the checksum is taken twice")
+						}
+						sumSeen, sumAppended, sumPos = true, len(em.segs), call.Pos()
 					}
 					em.segs = append(em.segs, seg)
 					continue
 				}
 				problem("the packet is grown by %s, which is not understood", q)
 			default:
-				// p[k] = x
 				if ix, ok := lhs.(*ast.IndexExpr); ok && isBuf(ix.X) && y.Tok == token.ASSIGN {
-					k, okk := constOf(ix.Index)
-					if !okk {
-						problem("store at non-constant offset %s", f.Str(ix.Index))
-						continue
-					}
 					if sumSeen {
 						problem("the packet is written after the checksum was taken")
 					}
-					r := region{lo: k, hi: k + 1}
-					if isOneOf(rhs, byteParams) != nil {
-						r.role = "seq"
-					}
-					head = append(head, r)
-					continue
+					continue // head store, collected by tiles below
 				}
 				problem("statement %s is not understood", f.Str(y))
 			}
 		case *ast.ExprStmt:
 			call, ok := ast.Unparen(y.X).(*ast.CallExpr)
-			if !ok {
-				problem("statement %s is not understood", f.Str(y))
-				continue
-			}
-			if b, isB := kit.Callee(info, call).(*types.Builtin); isB && b.Name() == "copy" && len(call.Args) == 2 {
-				dst := ast.Unparen(call.Args[0])
-				se, isSl := dst.(*ast.SliceExpr)
-				if !isSl || !isBuf(se.X) || se.Low == nil || se.High == nil {
-					problem("copy destination %s is not a constant window of the packet", f.Str(dst))
-					continue
-				}
-				lo, ok1 := constOf(se.Low)
-				hi, ok2 := constOf(se.High)
-				if !ok1 || !ok2 || lo > hi {
-					problem("copy destination %s is not a constant window of the packet", f.Str(dst))
-					continue
-				}
-				if sumSeen {
-					problem("the packet is written after the checksum was taken")
-				}
-				r := region{lo: lo, hi: hi, call: call}
-				for _, sp := range strParams {
-					if mentions(call.Args[1], sp) {
-						r.role = "subject"
-						em.subjField, em.subjParam = hi-lo, sp
+			if ok {
+				if b, isB := kit.Callee(info, call).(*types.Builtin); isB && b.Name() == "copy" && len(call.Args) == 2 {
+					if sumSeen {
+						problem("the packet is written after the checksum was taken")
 					}
+					continue // head copy, collected by tiles below
 				}
-				head = append(head, r)
-				continue
 			}
 			problem("statement %s is not understood", f.Str(y))
 		case *ast.ReturnStmt:
@@ -374,62 +445,55 @@ func c17AnalyseSliceEncoder(c *kit.Ctx, enc *c17Encoder) *c17EncModel {
 			problem("the packet is touched inside %T, which is conditional or repeated", st)
 		}
 	}
-	// the zeroed head must be tiled exactly by the stores
-	var segs []c17Seg
 	if headLen < 0 {
 		problem("no make of the packet slice at the top level of the encoder")
 		headLen = 0
 	}
-	sort.Slice(head, func(i, j int) bool { return head[i].lo < head[j].lo })
-	pos := int64(0)
-	for _, r := range head {
-		if r.lo != pos {
-			problem("bytes [%d:%d) of the packet head are never written (they stay zero) or are written twice", pos, r.lo)
-		}
-		segs = append(segs, c17Seg{role: r.role, size: r.hi - r.lo, call: r.call})
-		pos = r.hi
+	var head []c17Seg
+	if headLen > 0 {
+		head = tiles(enc.buf, headLen, "the packet head")
 	}
-	if pos != headLen {
-		problem("the packet head has %d bytes but the stores cover %d", headLen, pos)
-	}
-	nHead := len(segs)
 	if sumSeen {
-		em.sumAfter = nHead + sumAppended
-	}
-	em.segs = append(segs, em.segs...)
-	if !sumSeen {
+		em.sumAfter = len(head) + sumAppended
+	} else {
 		problem("the checksum call is not an unconditional top-level statement")
 	}
-	// subject length guard: at the copy, len(subject) <= field size on every path
-	if em.subjParam != nil {
-		lf := &kit.LenFlow{F: f, X: em.subjParam}
-		em.guardOK, em.guardMsg = true, ""
-		seen := false
-		lf.Visit = func(n ast.Node, s kit.S) {
-			for _, cp := range kit.CallsIn(n) {
-				if b, ok := kit.Callee(info, cp).(*types.Builtin); !ok || b.Name() != "copy" || len(cp.Args) != 2 || !mentions(cp.Args[1], em.subjParam) {
-					continue
-				}
-				seen = true
-				_, max, ok := lf.LenRange(s)
-				switch {
-				case !ok:
-					em.guardOK, em.guardMsg = false, "undecided: length of the subject unknown at the copy"
-				case max < 0 || max > em.subjField:
-					em.guardOK = false
-					em.guardMsg = fmt.Sprintf("a subject of %d bytes reaches `%s` and is silently truncated to %d bytes (no dominating length refusal)", em.subjField+1, f.Str(cp), em.subjField)
-					if s.Get("u") != "" {
-						em.guardMsg = "undecided: " + em.guardMsg
-					}
+	_ = sumPos
+	em.segs = append(head, em.segs...)
+	c17SubjectGuard(f, em)
+	return em
+}
+
+// c17DefCall: e is a local whose only definition is (the first result of) a call.
+func c17DefCall(f *kit.Func, e ast.Expr) (*ast.CallExpr, bool) {
+	info := f.Info()
+	id, ok := ast.Unparen(e).(*ast.Ident)
+	if !ok {
+		return nil, false
+	}
+	o := kit.ObjOf(info, id)
+	if o == nil {
+		return nil, false
+	}
+	var call *ast.CallExpr
+	n := 0
+	ast.Inspect(f.Body, func(x ast.Node) bool {
+		as, isAs := x.(*ast.AssignStmt)
+		if !isAs {
+			return true
+		}
+		for i, l := range as.Lhs {
+			if li, isId := ast.Unparen(l).(*ast.Ident); isId && kit.ObjOf(info, li) == o {
+				n++
+				if i == 0 && len(as.Rhs) == 1 {
+					call, _ = ast.Unparen(as.Rhs[0]).(*ast.CallExpr)
 				}
 			}
 		}
-		lf.Run()
-		if lf.Problem != "" {
-			em.guardOK, em.guardMsg = false, "undecided: "+lf.Problem
-		} else if !seen {
-			em.guardOK, em.guardMsg = false, "undecided: the subject copy was not reached by the path engine"
-		}
+		return true
+	})
+	if n != 1 || call == nil {
+		return nil, false
 	}
-	return em
+	return call, true
 }
